@@ -147,6 +147,16 @@ def run_wait(cases):
                 g2 = {"kind": repr(ex)[:60]}
             againr = "same" if (g2.get("kind") == got["kind"] and g2.get("code") == got.get("code")) else "different"
             againsys = (len(w.log) - n1) + (len(w.sleep_log) - s1)
+        # a negative timeout is refused whatever the object has already learnt
+        negafter = "skipped"
+        if proc is not None and got["kind"] in ("none", "value"):
+            try:
+                proc.wait([-1, -0.001, -1e9][i % 3])
+                negafter = "returned"
+            except ValueError:
+                negafter = "ValueError"
+            except Exception as ex:  # noqa: BLE001
+                negafter = type(ex).__name__
         badkill = [(kp, ks) for (kp, ks, _) in w.kill_log if kp <= 0 or ks != 0]
         del w.kill_log[:]
         codes = {"exit0": 0, "exit7": 7, "sigkill": -9, "sigterm": -15, "sigrt35": -35}
@@ -156,7 +166,7 @@ def run_wait(cases):
                "code": got.get("code", 0), "at": int(round(at / H * U)),
                "sleeps": [int(round(d / H * U)) for d in sl], "syscalls": syscalls,
                "secondsok": got.get("seconds") == timeout, "pidok": got.get("pid") == pid,
-               "again": againr, "againsyscalls": againsys, "badkill": len(badkill), "raw": repr(got)[:80]}
+               "again": againr, "againsyscalls": againsys, "negafter": negafter, "badkill": len(badkill), "raw": repr(got)[:80]}
         out.append((rec, dev))
     return out
 
@@ -302,7 +312,7 @@ def judge_wait(ctx, cases):
     for r0 in recs:
         ctx.case(json.dumps(r0, sort_keys=True))
     names = ["OnlyKnownOutcomes", "NeverEarly", "TimeoutHonoured", "Polls", "ZeroNeverSleeps", "Negative",
-             "NegativeBeforeSyscalls", "NeverExisted", "Prompt", "Cached"]
+             "NegativeBeforeSyscalls", "NeverExisted", "Prompt", "Cached", "NegativeAlways"]
     for tag, body in [p for p in r.printed if p[0] == "REJECTED"]:
         vals = tlc.parse_value("<<" + body + ">>")
         r0 = recs[vals[0] - 1]
